@@ -196,11 +196,10 @@ func toPropertyDescriptor(rt *runtime, value Value) property {
 
 func (rt *runtime) fromPropertyDescriptor(descriptor property) *object {
 	obj := rt.newObject()
-	if descriptor.isDataDescriptor() {
-		obj.defineProperty("value", descriptor.value.(Value), 0o111, false)
-		obj.defineProperty("writable", boolValue(descriptor.writable()), 0o111, false)
-	} else if descriptor.isAccessorDescriptor() {
-		getSet := descriptor.value.(propertyGetSet)
+	// Decide by what the property holds: the built-in accessors (a function's
+	// caller and arguments, an error's stack) are stored with their write bits
+	// off, which isDataDescriptor() takes for a data property.
+	if getSet, isAccessor := descriptor.value.(propertyGetSet); isAccessor {
 		get := Value{}
 		if getSet[0] != nil {
 			get = objectValue(getSet[0])
@@ -211,6 +210,10 @@ func (rt *runtime) fromPropertyDescriptor(descriptor property) *object {
 		}
 		obj.defineProperty("get", get, 0o111, false)
 		obj.defineProperty("set", set, 0o111, false)
+	} else if descriptor.isDataDescriptor() {
+		value, _ := descriptor.value.(Value)
+		obj.defineProperty("value", value, 0o111, false)
+		obj.defineProperty("writable", boolValue(descriptor.writable()), 0o111, false)
 	}
 	obj.defineProperty("enumerable", boolValue(descriptor.enumerable()), 0o111, false)
 	obj.defineProperty("configurable", boolValue(descriptor.configurable()), 0o111, false)
